@@ -226,7 +226,9 @@ class Representation(ObjectWithFields):
                     rv.process_moov(atom, key_ids)
                     moov = atom
         if rv.encrypted:
-            rv.kids = list(key_ids)
+            # KeyMaterial objects never compare equal: a key id that is named more than
+            # once (by tenc and by a pssh box in every moof) is listed once
+            rv.kids = list({kid.hex: kid for kid in key_ids}.values())
             if rv.default_kid is None and rv.kids:
                 rv.default_kid = rv.kids[0]
         if representation_start_time is None:
